@@ -23,6 +23,9 @@ type MuxStream struct {
 	ID    int   `json:"id"`
 	Dir   int   `json:"dir"` // 0: end A writes, end B reads; 1: the other way
 	Sizes []int `json:"sizes"`
+	// Reopen > 0: after that many payloads the reader closes its logical connection and opens the
+	// same id again (the writer waits at that boundary); the rest must arrive on the new connection.
+	Reopen int `json:"reopen,omitempty"`
 }
 
 type MuxFault struct {
@@ -81,6 +84,25 @@ func muxGen(focus string) func(rng *rand.Rand, conf string, idx int) any {
 						sz = pick(rng, muxBigSizes)
 					}
 					st.Sizes = append(st.Sizes, sz)
+				}
+				if focus == "C10" && dir == 1 && len(st.Sizes) >= 2 && rng.Intn(5) == 0 {
+					// only when this id carries no stream in the other direction (the reader's connection is
+					// closed and re-opened, which would disturb a writer using it)
+					other := false
+					for _, x := range w.Streams {
+						if x.ID == id {
+							other = true
+						}
+					}
+					lis := false
+					for _, l := range w.Listen {
+						if l == id {
+							lis = true
+						}
+					}
+					if !other && !lis {
+						st.Reopen = 1 + rng.Intn(len(st.Sizes)-1)
+					}
 				}
 				w.Streams = append(w.Streams, st)
 			}
@@ -232,6 +254,7 @@ func muxRun(t *testing.T, wl any, sc SchedCfg) *Result {
 		key := func(id, dir int) string { return fmt.Sprintf("%d/%d", id, dir) }
 		totalFrames := 0
 		withheld := map[string]bool{}
+		reopened := map[string]bool{}
 		nofc := map[string]bool{}
 		for _, f := range w.Faults {
 			if f.Kind == "overflow" {
@@ -266,7 +289,10 @@ func muxRun(t *testing.T, wl any, sc SchedCfg) *Result {
 			k := key(st.ID, st.Dir)
 			e.Task("writer-"+k, func() {
 				off := 0
-				for _, sz := range st.Sizes {
+				for pi, sz := range st.Sizes {
+					if st.Reopen > 0 && pi == st.Reopen {
+						e.S.ParkOwned("wgate-reopen:"+k, "writer-"+k, func() bool { return reopened[k] || sd.rdone })
+					}
 					// flow control: "the receiver keeps up with the configured queue length"
 					fr := framesOf(sz)
 					e.S.ParkOwned("wgate:"+k, "writer-"+k, func() bool {
@@ -292,7 +318,26 @@ func muxRun(t *testing.T, wl any, sc SchedCfg) *Result {
 			})
 			e.Task("reader-"+k, func() {
 				buf := make([]byte, maxsz)
+				reopenAt := -1
+				if st.Reopen > 0 {
+					reopenAt = 0
+					for _, sz := range st.Sizes[:st.Reopen] {
+						reopenAt += framesOf(sz)
+					}
+				}
 				for sd.reads < wantFrames {
+					if sd.reads == reopenAt && !reopened[k] {
+						rc.Close()
+						nc, err := muxes[1-st.Dir].Open(multiplex.ConnID(st.ID))
+						if err != nil {
+							sd.rerr = err
+							break
+						}
+						rc = nc
+						conns[1-st.Dir][st.ID] = nc
+						reopened[k] = true
+						e.S.Probe("C10.logical-connection-closed-and-reopened")
+					}
 					e.S.ParkOwned("rgate:"+k, "reader-"+k, func() bool { return !withheld[k] })
 					n, err := rc.Read(buf)
 					if err != nil {
